@@ -100,10 +100,13 @@ def tight_clock_configs(tier, seed):
                     # write latency + tWR + tCCD), plus one other
                     xs = ["tWR"] + [x for x in xs if x != "tWR"][:1]
                 for x in xs:
-                    d = mod.get(x)
-                    if d is None or not d[1]:
-                        continue
-                    ns = Fraction(d[1]).limit_denominator(10 ** 6)
+                    try:
+                        d = mod.get(x, getattr(mod.timing_settings, "fine_refresh_mode", None)) if x == "tRFC" else mod.get(x)
+                        if d is None or not d[1]:
+                            continue
+                        ns = Fraction(float(d[1])).limit_denominator(10 ** 6)
+                    except (TypeError, ValueError, KeyError):
+                        continue      # table entry in a form this helper does not handle: no tight case for it
                     cands = []
                     for k in range(1, 400):
                         f = (Fraction(k - 1) + Fraction(1, n) - Fraction(1, 50)) / ns * 10 ** 9      # ns/T = k-1+1/n-0.02
